@@ -20,8 +20,21 @@ ASSUMPTIONS = ["well-formed problem: sequence over ATGC, locations inside the se
                "oracle only (attribute tables are static)"]
 
 
+def all_enforced_problem(rng):
+    """only constraints presumed enforced by the mutation space (overlapping / nested / contradictory): resolve_constraints
+    returns early, so the result rests on the space construction alone"""
+    from gen import hard
+    seq, descs = hard.rand_problem(rng, nmin=4, nmax=16, kmax=4, kinds=["keep", "keep_idx", "cds", "sequence", "choice", "change"])
+    if rng.random() < 0.5:
+        seq = hard.rand_seq(rng, len(seq))
+    return dict(sequence=seq, constraints=descs, objectives=[], settings=problems.rand_settings(rng), np_seed=rng.randint(0, 10 ** 6))
+
+
 def gen_cases(rng, n):
-    for _ in range(n):
+    for i in range(n):
+        if i % 6 == 5:
+            yield dict(desc=all_enforced_problem(rng), op="resolve")
+            continue
         yield dict(desc=problems.rand_solver_problem(rng, objectives=False), op="resolve")
 
 
